@@ -39,7 +39,7 @@ def sanity(run):
     run.add_tlc(res)
 
 
-def run_group(run, group, widths, limit, big=False, wide=()):
+def run_group(run, group, widths, limit, big=False, wide=(), wide_frac=0.25):
     rng = random.Random(run.seed + hash(group) % 1000)
     cfgs = library.catalogue(rng, widths=widths, groups=(group,), big=big)
     tables = []
@@ -57,7 +57,7 @@ def run_group(run, group, widths, limit, big=False, wide=()):
         for cfg in library.catalogue(rng, widths=(w,), groups=(group,)):
             if max(cfg['iw'] + cfg['ow']) > 30 or (cfg['kind'] in ('Mul', 'SignedMul', 'FixedPointMult') and sum(cfg['iw'][:2]) > 30):
                 continue
-            if rng.random() > 0.25:
+            if rng.random() > wide_frac:
                 continue
             t, why = record_table(cfg, rng, 160)
             if t is None:
@@ -102,6 +102,82 @@ def run_x(run, group, widths, maxvecs):
                 run.drift_note('%s: extracted netlist executed by the Kernel gives %s for inputs %s, the real simulator agrees with the reference %s'
                                % (cfg['name'], vs[0][2], vs[0][0], vs[0][1]))
 
+# ------------------------------------------------------------------ wide widths (beyond TLC integers)
+def wide_kinds():
+    """the kinds LibraryWide.tla defines (read from the specification: one list, one place)"""
+    import re
+    from .tlc import SPEC
+    text = (SPEC / 'LibraryWide.tla').read_text()
+    body = re.search(r'WideKinds == \{(.*?)\}', text, re.S).group(1)
+    return set(re.findall(r'"(\w+)"', body))
+
+
+def _small_params(c):
+    for v in c.values():
+        if isinstance(v, int) and not isinstance(v, bool) and abs(v) >= (1 << 30):
+            return False
+        if isinstance(v, list) and any(isinstance(x, int) and abs(x) >= (1 << 30) for x in v):
+            return False
+    return True
+
+
+def run_wide(run, group, width_sets, per_kind, nrows):
+    """truth-table rows at 31..64 bit port widths, values exchanged as limb vectors and judged by Trace_CombWide"""
+    from .vparse import limbs
+    rng = random.Random(run.seed + 77 + hash(group) % 1000)
+    kinds = wide_kinds()
+    tables, metas, ints = [], [], []
+    for ws in width_sets:
+        cfgs = [c for c in library.catalogue(rng, widths=ws, groups=(group,)) if c['kind'] in kinds and _small_params(c['c'])
+                and max(c['iw'] + c['ow']) > 30 and len(c['iw']) <= 6]
+        rng.shuffle(cfgs)
+        seen = {}
+        for cfg in cfgs:
+            if seen.get(cfg['kind'], 0) >= per_kind:
+                continue
+            t, why = record_table(cfg, rng, nrows)
+            if t is None:
+                continue
+            seen[cfg['kind']] = seen.get(cfg['kind'], 0) + 1
+            ints.append(t)
+            tables.append({'kind': t['kind'], 'c': t['c'], 'iw': t['iw'], 'ow': t['ow'], 'rows': [[limbs(v) for v in row] for row in t['rows']]})
+            metas.append(cfg)
+    if not tables:
+        raise MachineryError('no wide tables recorded for ' + group)
+    run.note('wide_configurations', len(tables))
+    run.note('wide_kinds', sorted({m['kind'] for m in metas}))
+    for c0 in range(0, len(tables), 400):
+        part = tables[c0:c0 + 400]
+        tf = run.scratch / ('wide_%s_%d.json' % (group, c0))
+        tf.write_text(json.dumps(part))
+        res = run_tlc('Trace_CombWide', 'INIT Init\nNEXT Next\n', run.scratch / ('wide_%s_%d' % (group, c0)), env={'TRACE_FILE': str(tf)}, timeout=3000)
+        run.add_tlc(res)
+        seen = set()
+        for r in res.records:
+            tid = r[1] + c0
+            cfg, t = metas[tid - 1], ints[tid - 1]
+            seen.add(tid)
+            if r[0] == 'J':
+                run.count(r[2])
+                run.cov['constrained_rows'] = run.cov.get('constrained_rows', 0) + r[3]
+                run.nontrivial('wide:' + cfg['name'])
+            elif r[0] == 'V':
+                row = t['rows'][r[2] - 1]
+                ni = len(t['iw'])
+                exp = [None if e == [-1] else sum(x << (15 * k) for k, x in enumerate(e)) for e in r[3]]
+                wit = {'block': cfg['name'], 'kind': cfg['kind'], 'params': cfg['c'], 'iw': t['iw'], 'ow': t['ow'],
+                       'inputs': [hex(v) for v in row[:ni]], 'outputs': [hex(v) for v in row[ni:]],
+                       'expected': [None if e is None else hex(e) for e in exp], 'failing_rows': r[4], 'rows': len(t['rows'])}
+                run.violation('%s:%s:%s' % (run.pid, cfg['kind'], param_class(cfg)), wit,
+                              '%s: inputs %s give %s, reference %s (%d of %d rows differ)'
+                              % (cfg['name'], wit['inputs'], wit['outputs'], wit['expected'], r[4], len(t['rows'])))
+        if len(seen) != len(part):
+            raise MachineryError('Trace_CombWide judged %d of %d tables' % (len(seen), len(part)))
+        tf.unlink()
+    run.cov['traces_validated_against_impl'] += len(tables)
+    mid = len(tables) // 2
+    run.sample({'block': metas[mid]['name'], 'rows(inputs+outputs, hex)': [[hex(v) for v in r_] for r_ in ints[mid]['rows'][:3]]})
+
 
 def judge(run, tables, metas, tag, chunk=1500):
     nbad = set()
@@ -122,6 +198,8 @@ def judge(run, tables, metas, tag, chunk=1500):
                 run.count(r[2])
                 run.cov['constrained_rows'] = run.cov.get('constrained_rows', 0) + r[3]
                 run.nontrivial(cfg['name'])
+            elif r[0] == 'R':
+                raise MachineryError('Library and LibraryWide disagree on %s, inputs %s' % (cfg['name'], t['rows'][r[2] - 1][:len(t['iw'])]))
             elif r[0] == 'C':
                 raise MachineryError('table %s claims to be full but has %d of %d rows' % (cfg['name'], r[2], r[3]))
             elif r[0] == 'V':
